@@ -444,6 +444,38 @@ impl TransformerContext {
         Self::config_carried(&then.config, &self.config, &current.config)
     }
 
+    /// What an element which had to wait assigned is assigned in `current` as well -
+    /// for what is evaluated from here on - unless the variable has been assigned since
+    /// (`was`: the surroundings in which the element was evaluated).
+    pub fn carry_assignments(&self, was: &Surroundings, current: &mut Surroundings) {
+        // (the first assignment of a document creates the outermost scope)
+        let empty = Rc::new(Scope::default());
+        let outermost_created = was.scope_stack.is_empty() && self.scope_stack.len() == 1;
+        if outermost_created && current.scope_stack.is_empty() {
+            current.scope_stack.push(empty.clone());
+        }
+        if (was.scope_stack.len() != self.scope_stack.len() && !outermost_created)
+            || current.scope_stack.len() != self.scope_stack.len()
+        {
+            return;
+        }
+        for (level, now) in self.scope_stack.iter().enumerate() {
+            let before = was.scope_stack.get(level).unwrap_or(&empty);
+            if Rc::ptr_eq(before, now) {
+                continue;
+            }
+            for (name, value) in &now.vars {
+                let assigned = before.vars.get(name) != Some(value);
+                let untouched = current.scope_stack[level].vars.get(name) == before.vars.get(name);
+                if assigned && untouched {
+                    Rc::make_mut(&mut current.scope_stack[level])
+                        .vars
+                        .insert(name.clone(), value.clone());
+                }
+            }
+        }
+    }
+
     /// `current` with the settings which differ between `was` and `now`, if any do:
     /// what was configured otherwise - a limit, say - stays.
     pub fn config_carried(
